@@ -10,6 +10,8 @@ CONSTANTS
   AllowBad = TRUE
   AllowSplit = FALSE
   AllowRst = TRUE
+  AllowTClose = TRUE
+  AllowCRst = TRUE
   Timeout = 2
   MaxNow = 3
   DrainMode = "raw"
